@@ -557,6 +557,12 @@ def reorder_case(rng, case):
     c["reorder"] = perm
     c["bb"] = [[perm[a], perm[b]] for a, b in case["bb"]]
     c["fb"] = [[perm[a], perm[b]] for a, b in case["fb"]]
+    order = list(range(n))
+    for _ in range(5):
+        rng.shuffle(order)
+        if order != sorted(order):
+            break
+    c["node_order"] = order          # nodes stored out of label order whatever reorder_nodes does
     c["family"] = case.get("family", "random") + "+reordered"
     return c
 
@@ -735,6 +741,17 @@ def _build(case):
     perm = case.get("reorder")
     if perm:
         reactant.reorder_atoms({i: perm[i] for i in range(len(perm))})
+    order = case.get("node_order")
+    if order:
+        # the same graph (labels, attributes, edges) with its nodes STORED in a different order, as e.g.
+        # truncation.get_truncated_species or a hand-built MolecularGraph produce: node names != iteration positions
+        old = reactant.graph
+        g = old.__class__()
+        for i in order:
+            g.add_node(i, **old.nodes[i])
+        for a, b, d in old.edges(data=True):
+            g.add_edge(a, b, **d)
+        reactant.graph = g
     product = mk_product(case["prod"], "p")
     return reactant, product
 
@@ -974,7 +991,7 @@ def analyse(ctx, idx, case, res, terms, descr, stats, findings):
         fail("node-order", "the reactant handed to get_bond_rearrangs is not the described one (atoms / node names / "
              "node attributes / bonds after the optional in-place edit and reorder_atoms)")
         return
-    if case.get("reorder"):
+    if case.get("reorder") or case.get("node_order"):
         ctx.hist(stream, "reactant-nodes-" + ("in-order" if res["r_nodes"] == list(range(n)) else "out-of-order"))
     nq = len(r0["log"])
     ctx.hist(stream, "family=" + case.get("family", "random"))
@@ -1058,7 +1075,7 @@ def analyse(ctx, idx, case, res, terms, descr, stats, findings):
         if isinstance(r1["outcome"], list) and len(r1["outcome"]) < n_out:
             ctx.hist(stream, "small-ring-prune-removed-some")
     key = (json.dumps(case["reac"]["mols"]), json.dumps(case["bb"]), json.dumps(case["fb"]), json.dumps(case["prod"]["perm"]),
-           json.dumps(case["reac"].get("classes")), json.dumps(case.get("reorder")), bool(case.get("pre")))
+           json.dumps(case["reac"].get("classes")), json.dumps(case.get("reorder")), json.dumps(case.get("node_order")), bool(case.get("pre")))
     ctx.count(stream, key, nontrivial=(nq > 1),
               sample={"reactant": case["reac"]["mols"], "bbonds": case["bb"], "fbonds": case["fb"],
                       "result": r0["outcome"], "n_iso_queries": nq})
